@@ -19,7 +19,7 @@ RULE = (
     "model, nonlinear model} x every applicable method {auto, linprog, highs, highs-ds, highs-ipm | auto, SLSQP, "
     "trust-constr, L-BFGS-B, TNC, BFGS, CG, Newton-CG, Nelder-Mead, Powell, COBYLA} x {strict, non-strict}: the full "
     "product; plus histories of 2 (3 thorough) solves on ONE problem object (warm caches) over method pairs and every "
-    "strict / non-strict combination.  transitions = solves on the real code with the back-end seam counting calls; evaluations: strict "
+    "strict / non-strict combination, also with a domain edit between two solves (one variable relaxed, the continuous helper made integer).  transitions = solves on the real code with the back-end seam counting calls; evaluations: strict "
     "raises IntegerVariableError whose variable_names are exactly the non-continuous variables with 0 back-end "
     "calls; non-strict emits >=1 UserWarning naming exactly those variables and returns the same status / objective "
     "/ values as the same model declared continuous; every element reachable through every view of a binary "
@@ -183,18 +183,27 @@ def sequence_cases(tier):
                         idx += 1
 
 
-def check_sequence(label, route, container, domain, attrs, rep=None, want=None):
+def check_sequence(label, route, container, domain, attrs, rep=None, want=None, edit=None):
     from optyx.core.errors import IntegerVariableError
 
     fails = Fails(want)
     rl, _, _, model, steps = label
     P, vs = make_problem("mixed", model, route, container, domain, attrs)
     D = sorted({v.name for v in P.variables if v.name != "zc"}, key=natural_key)
+    zc = next((v for v in P.variables if v.name == "zc"), None)
     if rep:
         rep.states += 1
         rep.nt(label)
     for k, (method, strict) in enumerate(steps):
         kw = {} if method == "auto" else {"method": method}
+        if k == 1 and edit == "relax-one" and vs:
+            vs[-1].domain = "continuous"          # the user relaxes one variable between two solves ...
+            D = sorted({v.name for v in P.variables if v.domain != "continuous"}, key=natural_key)
+        if k == 1 and edit == "discretise-zc" and zc is not None:
+            zc.domain = "integer"                 # ... or makes a continuous one integer
+            D = sorted({v.name for v in P.variables if v.domain != "continuous"}, key=natural_key)
+        if not D:
+            break
         if rep:
             rep.transitions += 1
             rep.evaluations += 2
@@ -291,6 +300,36 @@ def check_case(label, route, container, domain, attrs, rep=None, want=None):
             if missing or "zc" in inside.replace("_diag_", ""):
                 fails.add("warning-names", method=method, missing=missing, text=t[:200], D=D)
                 break
+    # the same solve when the environment answers badly: every back-end call raises / the method name is unknown to SciPy
+    for env in ("back-end-raises", "unknown-method"):
+        try:
+            P3, _ = make_problem(kind, model, route, container, domain, attrs)
+
+            def boom(call):
+                raise RuntimeError("injected back-end fault")
+
+            with warnings.catch_warnings(record=True) as rec3:
+                warnings.simplefilter("always")
+                try:
+                    if env == "back-end-raises":
+                        with Seam(script=[boom] * 6, passthrough=False):
+                            P3.solve(**kw)
+                    else:
+                        P3.solve(method="no-such-method")
+                except Exception:
+                    pass
+            if rep:
+                rep.transitions += 1
+                rep.evaluations += 1
+            t3 = [str(w.message) for w in rec3 if issubclass(w.category, UserWarning) and "integer/binary" in str(w.message)]
+            if not t3:
+                fails.add("no-relaxation-warning:" + env, method=method, D=D)
+            else:
+                inside = t3[0].split("[", 1)[1].rsplit("] have", 1)[0] if "[" in t3[0] and "] have" in t3[0] else t3[0]
+                if [n for n in D if n not in inside]:
+                    fails.add("warning-names:" + env, method=method, text=t3[0][:200], D=D)
+        except Exception as ex:
+            fails.add("exception:bad-environment:" + type(ex).__name__, method=method, msg=str(ex)[:200])
     try:
         P2, _ = make_problem(kind, model, route, container, domain, attrs, continuous=True)
         for v in P2.variables:       # helper variables created by the API (diag_matrix zeros) are relaxed too
@@ -358,6 +397,12 @@ def explore(item, tier, seed):
                 if k not in seen:
                     seen.add(k)
                     rep.violation(k, {"label": ("seq",) + label}, **d)
+            if not fs:
+                for edit in ("relax-one", "discretise-zc"):
+                    for k, d in check_sequence(label, route, container, domain, attrs, rep, edit=edit):
+                        if k + ":" + edit not in seen:
+                            seen.add(k + ":" + edit)
+                            rep.violation(k + ":after-domain-edit", {"label": ("seq",) + label, "edit": edit}, **d)
             if rep.states % 53 == 1:
                 rep.sample({"solve-history on one problem object": label})
         return rep
@@ -390,12 +435,12 @@ def replay(art):
     if lab[0] == "views":
         return [{"kind": k, "detail": d} for k, d in check_binary_views(Report())]
     if lab[0] == "seq":
-        for idx, label, route, container, domain, attrs in sequence_cases("thorough"):
-            if detuple(list(label)) == lab[1:] or label == lab[1:]:
-                return [{"kind": k, "detail": d} for k, d in check_sequence(label, route, container, domain, attrs)]
-        for idx, label, route, container, domain, attrs in sequence_cases("quick"):
-            if detuple(list(label)) == lab[1:] or label == lab[1:]:
-                return [{"kind": k, "detail": d} for k, d in check_sequence(label, route, container, domain, attrs)]
+        edit = art["violation"]["case"].get("edit")
+        sfx = ":after-domain-edit" if edit else ""
+        for tier_ in ("thorough", "quick"):
+            for idx, label, route, container, domain, attrs in sequence_cases(tier_):
+                if detuple(list(label)) == lab[1:] or label == lab[1:]:
+                    return [{"kind": k + sfx, "detail": d} for k, d in check_sequence(label, route, container, domain, attrs, edit=edit)]
     for idx, label, route, container, domain, attrs in all_cases("quick"):
         if detuple(list(label)) == lab or label == lab:
             fs = check_case(label, route, container, domain, attrs, None, want=art["culprit"]["kind"])
